@@ -43,6 +43,30 @@ def dropin_scenarios(rng, tier):
         yield s
 
 
+# ---- ruleset-cgroup rulesets: every per-cgroup instance suspends and resumes on its own ---------------------------------------
+#
+# "(and ruleset-cgroup instances) pausing independently": decided on C11's engine (h_rscgroup), with more ASYNC_PAUSED returns
+# and trees in which matching cgroups vanish (also all at once) and come back.  Clauses C06.percg_* of Driver/Rscgroup.lean.
+
+def percg_scenarios(rng, tier):
+    from . import C11
+    n = {"quick": 1500, "thorough": 15000, "search": 4000}[tier]
+    for _ in range(n):
+        s = C11.mk_scenario(rng, calm=rng.random() < 0.5, nticks=rng.randint(4, 10))
+        s["prop"] = PROP
+        acts = [C11.act_id(a) for r in s["rulesets"] for a in r["actions"]]
+        for i, t in enumerate(s["ticks"]):
+            for key in list(t["calls"]) or []:
+                for a in acts:
+                    if rng.random() < 0.2:
+                        t["calls"][key][str(a)] = [2, 0, -1]
+            # now and then every cgroup below s/ is gone for one tick (instances must be dropped, also suspended ones)
+            if i >= 2 and rng.random() < 0.12:
+                t["cgs"] = [c for c in t["cgs"] if "/" not in c["path"]]
+                t["calls"] = {k: v for k, v in t["calls"].items() if "/" not in k}
+        yield s
+
+
 def run(tier, seed, replay=None):
     import json
     import os
@@ -56,6 +80,11 @@ def run(tier, seed, replay=None):
         return c.startswith("C06.")
     if replay:
         rp = json.load(open(replay))
+        if rp.get("pass") == "percg":
+            viol, _, _ = core.extra_pass(PROP, "rscgroup", "h_rscgroup", "asan", [rp["scenario"]], tier, seed, want=want, label="percg")
+            for c, p in viol:
+                print("VIOLATION property=%s replay=%s" % (PROP, p))
+            return 1 if viol else 0
         if rp.get("pass") == "dropinsusp":
             viol, _, _ = core.extra_pass(PROP, "dropin", "h_dropin", "asan", [rp["scenario"]], tier, seed, want=want, label="dropinsusp")
             for c, p in viol:
@@ -74,6 +103,17 @@ def run(tier, seed, replay=None):
                                    "are ruleset-cgroup rulesets, a quarter of the action calls return ASYNC_PAUSED; clause: a "
                                    "suspended chain is resumed at the paused action on the first tick the ruleset runs again, also "
                                    "after ticks on which a drop-in disabled it")
+    from . import C11
+    scs2 = list(percg_scenarios(random.Random(seed * 7919 + 5), "search" if esc else tier))
+    viol2, cov2, res2 = core.extra_pass(PROP, "rscgroup", "h_rscgroup", "asan", scs2, tier, seed, want=want,
+                                        shrink_candidates=C11.shrink_candidates, label="percg")
+    cov2["percg_pass_async_returns"] = sum(1 for s, t, v in res2 for tk in s["ticks"] for d in tk["calls"].values() for c in d.values() if c[0] == 2)
+    core.merge_extra_into_evidence(PROP, cov2, len(viol2),
+                                   "per-cgroup pass (ruleset-cgroup rulesets on h_rscgroup, C11's scenario space with a fifth of the "
+                                   "action calls returning ASYNC_PAUSED and ticks on which every matching cgroup is gone): an instance "
+                                   "that stayed resumes its own chain at the paused action with its context; one created after an "
+                                   "absence starts clean")
+    viol = viol + viol2
     for c, p in viol:
         print("VIOLATION property=%s replay=%s" % (PROP, p))
     return 1 if (rc or viol) else 0
